@@ -13,9 +13,57 @@ EXPLANATION = (
     "(T2) every TryFrom<&str|&String|String> delegates to parse(); newtype Display/FromStr delegate to field .0; the "
     "unconstrained string newtype's FromStr is total like its transparent Deserialize; the constrained one shares its FromStr "
     "with Deserialize; (D1) the all-simple impls are offered only for tagged, non-empty, all-Simple enums and the untagged "
-    "FromStr/Display only when every variant is a single item whose type has the impl, tried in declaration order."
+    "FromStr/Display only when every variant is a single item whose type has the impl, tried in declaration order; (D2) every "
+    "built-in native type that the generator introduces with a literal path advertises FromStr/Display (which newtypes and "
+    "untagged enums then forward to) only if that trait of the external type is tabled as agreeing with its serde string form; "
+    "the table was filled by reading and running uuid, chrono and std::net (chrono's Display of DateTime/NaiveDateTime prints "
+    "`2014-11-28 12:00:09 UTC`, serde writes `2014-11-28T12:00:09Z`); a type that is not in the table is reported as unvetted."
 )
-ASSUMPTIONS = ["FromStr/Display of uuid, chrono and std::net types agree with their serde string form"]
+ASSUMPTIONS = ["the tabled behaviour of uuid 1.x, chrono 0.4 and std::net Display/FromStr (see C11.D2 table)"]
+
+# external type -> traits whose string form equals the serde string form (vetted by running them, see DESIGN.md)
+NATIVE_AGREES = {
+    "::uuid::Uuid": {"Display", "FromStr"},
+    "::chrono::naive::NaiveDate": {"Display", "FromStr"},
+    "::chrono::NaiveDate": {"Display", "FromStr"},
+    "::chrono::naive::NaiveTime": {"Display", "FromStr"},
+    "::chrono::DateTime<::chrono::offset::Utc>": {"FromStr"},
+    "::chrono::DateTime<::chrono::offset::FixedOffset>": {"FromStr"},
+    "::chrono::naive::NaiveDateTime": {"FromStr"},
+    "::chrono::NaiveDateTime": {"FromStr"},
+    "::std::net::IpAddr": {"Display", "FromStr"},
+    "::std::net::Ipv4Addr": {"Display", "FromStr"},
+    "::std::net::Ipv6Addr": {"Display", "FromStr"},
+    "::std::net::SocketAddr": {"Display", "FromStr"},
+    "::std::net::SocketAddrV4": {"Display", "FromStr"},
+    "::std::net::SocketAddrV6": {"Display", "FromStr"},
+}
+
+
+def run_d2(facts, rep):
+    c = facts.impl
+    n = 0
+    for h in c.user_fns():
+        for x, _ in nodes(h["body"], "call"):
+            if not (x.get("fn") or "").endswith("TypeEntry::new_native") or len(x.get("args", [])) != 2:
+                continue
+            a0 = strip_refs(x["args"][0])
+            if a0.get("k") != "lit" or "str" not in a0.get("v", {}):
+                continue  # a type named by the user's settings: its impl list is the user's statement
+            ty = a0["v"]["str"]
+            traits = sorted({p_["path"].split("::")[-1] for p_, _ in walk(x["args"][1]) if p_.get("k") == "path" and "TypeSpaceImpl::" in p_.get("path", "")})
+            n += 1
+            for tr in traits:
+                if tr not in ("Display", "FromStr"):
+                    continue
+                if ty not in NATIVE_AGREES:
+                    rep.ob("C11.D2", "native-impl-agrees:%s/%s" % (ty, tr), False, "`%s` is introduced advertising %s, but whether its %s agrees with its serde string form has not been vetted (not in the C11.D2 table)" % (ty, tr, tr), x.get("sp"))
+                else:
+                    ok = tr in NATIVE_AGREES[ty]
+                    rep.ob("C11.D2", "native-impl-agrees:%s/%s" % (ty, tr), ok, "%s of %s equals its serde string form" % (tr, ty) if ok else
+                           "`%s` advertises %s, so newtypes/untagged enums over it forward Display to it, but its Display does not print what serialization writes" % (ty, tr), x.get("sp"))
+    rep.floor("C11.D2", "native types introduced with a literal path", n, 6)
+
 
 # provenance patterns (Canon renderings; local variable names do not occur in them)
 VARIANTS_ZIP = r"^\S*~TypeEntryEnum\.variants\.iter\(\)\.map\(\|\.\.\| \(format_ident!\(\S*\.ident_name\.unwrap\(\)\), elem<\S*~TypeEntryEnum\.variants\.iter\(\)>\.raw_name\)\)\.unzip\(\)"
@@ -23,6 +71,7 @@ VARIANTS_ZIP = r"^\S*~TypeEntryEnum\.variants\.iter\(\)\.map\(\|\.\.\| \(format_
 
 def run(facts, rep, tier):
     c = facts.impl
+    run_d2(facts, rep)
     ems = emit.find_emitters(facts, c)
     if not rep.floor("C11.T1", "item emitters", len(ems), 3):
         return
